@@ -7,5 +7,7 @@ mkdir -p runs evidence replays
 cp /repo/Cargo.lock harness/Cargo.lock
 (cd harness && cargo build --offline --profile verif 2>&1 | tail -n 3)
 (cd harness && cargo build --offline --profile verifwrap 2>&1 | tail -n 3)
+# warm the Miri build of the C04 executor (non fatal: the C04 check builds it itself when needed)
+(cd harness && CARGO_TARGET_DIR=$(pwd)/target/miri MIRIFLAGS="-Zmiri-disable-isolation" timeout 600 cargo +nightly miri run --offline --bin miri_c04 --quiet >/dev/null 2>&1 || true)
 test -x harness/target/verif/rivia-verif
 echo "setup ok"
